@@ -156,6 +156,14 @@ def replay(beh, tier, seed, opts):
             if got[2] and not e["sd"]:
                 fail("sd_unsound", base=b, rho=list(rho), perms=str(perms),
                      detail="reported structured-decomposable, definition says it is not")
+        for b, c in enumerate(cs):
+            if not st[b]["sd"]:
+                other = build(beh, rho, perms)[b]
+                if bool(are_compatible(c, c)) or bool(are_compatible(c, other)) \
+                        or bool(are_compatible(other, c)):
+                    fail("compat_unsound", base=b, rho=list(rho), perms=str(perms),
+                         detail="a circuit that is not structured-decomposable by definition is "
+                                "reported compatible with itself / with a copy of itself")
         if nb == 2:
             c12 = bool(are_compatible(cs[0], cs[1]))
             c21 = bool(are_compatible(cs[1], cs[0]))
@@ -300,6 +308,9 @@ def configurations(pid, tier, seed):
             "b_pairs": (cfg(Dom=(2, 2, 2), KSet={1}, MaxL=6, MaxIn=4, MaxAr=2,
                             MaxBases=2, InKindSeq=("emb",), InnerKinds={"had"},
                             FreeOrder=True, MaxOuts=1, EmitSmall=0, **em(10, 1)), o8),
+            "d_two_splits": (cfg(Dom=(2, 2, 2), KSet={1}, MaxL=7, MaxIn=3, MaxAr=2,
+                                 InKindSeq=("emb",), InnerKinds={"had"}, FreeOrder=False,
+                                 MaxOuts=2, EmitSmall=0, EmitFilter="nonsd", **em(1, 1)), o8),
             "c_pairs_sums": (cfg(Dom=(2, 2, 2), KSet={1}, MaxL=5, MaxIn=3, MaxAr=2, MaxBases=2,
                                  InKindSeq=("emb",), InnerKinds={"sum", "had"}, FreeOrder=False,
                                  MaxOuts=2, EmitSmall=0, **em(40, 2)), o8),
@@ -320,6 +331,10 @@ def configurations(pid, tier, seed):
                              OnlySD=True, MaxDeg=4,
                              OpSet={"integrate", "multiply", "evidence", "conjugate", "concat"},
                              EmitOps={2}, MaxOuts=2, EmitSmall=0, **em(500, 50)), o),
+            "e_self_multiply": (cfg(Dom=(2, 2, 2), KSet={1}, MaxL=7, MaxIn=3, MaxAr=2,
+                                    InKindSeq=("emb",), InnerKinds={"had"}, FreeOrder=False,
+                                    MaxOps=1, Invalid=True, OpSet={"multiply"}, EmitOps={1},
+                                    MaxOuts=2, EmitSmall=0, EmitFilter="nonsd", **em(1, 1)), o),
             "d_pairs_sums": (cfg(Dom=(2, 2, 2), KSet={1}, MaxL=5, MaxIn=3, MaxAr=2, MaxBases=2,
                                  InKindSeq=("emb",), InnerKinds={"sum", "had"}, FreeOrder=False,
                                  MaxOps=1, Invalid=True, OpSet={"multiply"}, EmitOps={1},
